@@ -582,20 +582,14 @@ func (m *Model) ruleOPENMODE(r *Results) {
 	r.check(okCreate, rule, name+" / CreateNew of an existing directory fails", m.pos(fn.Pos()), "mode CreateNew on an existing directory returns the exist error", "CreateNew no longer fails when the bucket directory already exists")
 	// schema initialised only when user_version == 0
 	var initCall, rearm ssa.CallInstruction
-	m.eachCall(fn, func(c ssa.CallInstruction) {
-		callee := c.Common().StaticCallee()
-		if callee == nil || !m.inPkg(callee) {
-			return
+	// re-arm: reaches the min-expiry query and a timer
+	rearmMemo := map[*ssa.Function]bool{}
+	isRearm := func(callee *ssa.Function) bool {
+		if v, ok := rearmMemo[callee]; ok {
+			return v
 		}
-		for _, s := range m.Sites {
-			if s.IsSchema && m.reachableLocal(callee)[s.Fn] {
-				initCall = c
-			}
-		}
-		// re-arm: reaches the min-expiry query and a timer
-		reach := m.reachableLocal(callee)
 		hasMin, hasTimer := false, false
-		for f := range reach {
+		for f := range m.reachableLocal(callee) {
 			for _, s := range m.Sites {
 				if s.Fn == f {
 					for _, v := range s.Variants {
@@ -611,41 +605,69 @@ func (m *Model) ruleOPENMODE(r *Results) {
 				}
 			})
 		}
-		if hasMin && hasTimer {
+		rearmMemo[callee] = hasMin && hasTimer
+		return hasMin && hasTimer
+	}
+	m.eachCall(fn, func(c ssa.CallInstruction) {
+		callee := c.Common().StaticCallee()
+		if callee == nil || !m.inPkg(callee) {
+			return
+		}
+		for _, s := range m.Sites {
+			if s.IsSchema && m.reachableLocal(callee)[s.Fn] {
+				initCall = c
+			}
+		}
+		if isRearm(callee) {
 			rearm = c
 		}
 	})
-	versCut := func(equalSide bool) *cut {
+	// the re-arm may sit in a helper of the open function (which is handed the condition): descend to
+	// the innermost call that still reaches both the query and the timer
+	rearmFn, rearmFr, rearmOuter := fn, topFrame(fn), rearm
+	for depth := 0; rearm != nil && depth < 2; depth++ {
+		callee := rearm.Common().StaticCallee()
+		var inner ssa.CallInstruction
+		m.eachCall(callee, func(c2 ssa.CallInstruction) {
+			if t := c2.Common().StaticCallee(); t != nil && m.inPkg(t) && isRearm(t) {
+				inner = c2
+			}
+		})
+		if inner == nil {
+			break
+		}
+		rearmFr = rearmFr.inline(rearm, callee)
+		rearmFn, rearm = callee, inner
+	}
+	// versCutIn cuts, in function g (seen through frame fr), the edges taken when the schema version
+	// is 0 (equalSide) or is not 0 (!equalSide). The condition may be the comparison itself, its
+	// negation, or a flag that was assigned from it (in g or in a caller that passes it down).
+	// With exactOnly the condition must be the predicate on every alternative (no "initially false").
+	versCutIn := func(g *ssa.Function, fr *frame, equalSide, exactOnly bool) *cut {
 		c := newCut()
-		for _, iff := range allIfs(fn) {
-			cd := condOf(iff)
-			eq, ok := cd.equalEdge()
-			if !ok || !(isZeroConst(cd.Y) || isZeroConst(cd.X)) {
+		te := m.newTermEval()
+		for _, iff := range allIfs(g) {
+			pol, exact := versPred(te.term(iff.Cond, iff, fr))
+			if pol == 0 || exactOnly && !exact {
 				continue
 			}
-			other := cd.X
-			if isZeroConst(cd.X) {
-				other = cd.Y
-			}
-			// the version variable: a value read by the Scan of PRAGMA user_version (directly or through a helper)
-			isVers := false
-			te := m.newTermEval()
-			for _, alt := range te.term(other, iff, topFrame(fn)).alts() {
-				if alt.Kind == "scan" && strings.Contains(alt.Col, "pragma:user_version") {
-					isVers = true
+			// pol=+1: true edge ⇒ version == 0; if exact, false edge ⇒ version != 0
+			// pol=-1: true edge ⇒ version != 0; if exact, false edge ⇒ version == 0
+			trueIsEqual := pol == 1
+			for i, s := range iff.Block().Succs {
+				edgeEqual := trueIsEqual == (i == 0)
+				if edgeEqual != equalSide {
+					continue
 				}
-			}
-			if !isVers {
-				continue
-			}
-			for _, s := range iff.Block().Succs {
-				if (s == eq) == equalSide {
-					c.cutEdge(iff.Block(), s)
+				if !exact && !edgeEqual {
+					continue // a flag that may still hold its initial value proves "new" only
 				}
+				c.cutEdge(iff.Block(), s)
 			}
 		}
 		return c
 	}
+	versCut := func(equalSide bool) *cut { return versCutIn(fn, topFrame(fn), equalSide, false) }
 	if initCall == nil {
 		r.undecided(rule, name+" / schema initialisation", m.pos(fn.Pos()), "no call reaching the schema script")
 	} else {
@@ -655,7 +677,7 @@ func (m *Model) ruleOPENMODE(r *Results) {
 	if rearm == nil {
 		r.bad(rule, name+" / expiry re-armed on reopen", m.pos(fn.Pos()), "the open function never schedules the pending expirations of an existing bucket: documents whose TTL was set before the restart never expire")
 	} else {
-		c := versCut(false)
+		c := versCutIn(rearmFn, rearmFr, false, true)
 		// the re-arm must sit directly on the "version != 0" edge (no further condition in between)
 		direct := false
 		for e := range c.edges {
@@ -663,7 +685,28 @@ func (m *Model) ruleOPENMODE(r *Results) {
 				direct = true
 			}
 		}
-		r.check(len(c.edges) > 0 && !entryReach(fn, c)[rearm.Block().Index] && direct, rule, name+" / expiry re-armed on reopen", m.instrPos(rearm), "an existing bucket (user_version != 0) always has its expirations scheduled on open", "the re-arm on reopen is skipped on some path for an existing bucket")
+		if rearmFn != fn {
+			// the helper that holds the re-arm is itself called on every path that opens a database and succeeds
+			var dbOpen ssa.CallInstruction
+			m.eachCall(fn, func(c2 ssa.CallInstruction) {
+				if f := c2.Common().StaticCallee(); f != nil && f.Pkg != nil && f.Pkg.Pkg.Path() == "database/sql" && f.Name() == "Open" {
+					dbOpen = c2
+				}
+			})
+			oc := newCut()
+			oc.cutBlock(rearmOuter.Block())
+			if dbOpen == nil {
+				direct = false
+			} else {
+				reach := reachableFrom(dbOpen.Block(), oc)
+				for _, ret := range returnsOf(fn) {
+					if reach[ret.Block().Index] && !m.isFailureReturn(ret) {
+						direct = false
+					}
+				}
+			}
+		}
+		r.check(len(c.edges) > 0 && !entryReach(rearmFn, c)[rearm.Block().Index] && direct, rule, name+" / expiry re-armed on reopen", m.instrPos(rearm), "an existing bucket (user_version != 0) always has its expirations scheduled on open", "the re-arm on reopen is skipped on some path for an existing bucket")
 	}
 }
 
@@ -1732,4 +1775,94 @@ func (m *Model) feedRoot() (*ssa.Function, ssa.Instruction) {
 		cur = callers[0].Parent()
 	}
 	return cur, entry
+}
+
+// ---- "the database is new" predicates ----
+
+// isVersTerm: the term is the schema version read by PRAGMA user_version (possibly through a
+// helper); the variable's zero value before the Scan is tolerated as an alternative.
+func isVersTerm(t *Term) bool {
+	isVers := false
+	for _, alt := range t.alts() {
+		switch {
+		case alt.Kind == "scan" && strings.Contains(alt.Col, "pragma:user_version"):
+			isVers = true
+		case isZeroTerm(alt):
+		default:
+			return false
+		}
+	}
+	return isVers
+}
+
+// versPredAlt classifies ONE alternative of a boolean term: +1 if it is (schema version == 0),
+// -1 if it is (schema version != 0), 0 otherwise.
+func versPredAlt(a *Term) int {
+	switch {
+	case a.Kind == "binop" && (a.Name == "==" || a.Name == "!=") && len(a.Args) == 2:
+		var other *Term
+		switch {
+		case isZeroTerm(a.Args[1]) && a.Args[1].Name == "":
+			other = a.Args[0]
+		case isZeroTerm(a.Args[0]) && a.Args[0].Name == "":
+			other = a.Args[1]
+		default:
+			return 0
+		}
+		if !isVersTerm(other) {
+			return 0
+		}
+		if a.Name == "==" {
+			return 1
+		}
+		return -1
+	case a.Kind == "call" && a.Name == "unop!" && len(a.Args) == 1:
+		p := 0
+		for i, alt := range a.Args[0].alts() {
+			q := versPredAlt(alt)
+			if q == 0 || i > 0 && q != p {
+				return 0
+			}
+			p = q
+		}
+		return -p
+	}
+	return 0
+}
+
+// versPred summarises a boolean term. exact: every alternative is the predicate with one
+// polarity (returned). weak: every alternative is either that predicate or the constant that
+// makes the "new" reading false (so "value true ⇒ new", resp. "value false ⇒ new" still holds).
+func versPred(t *Term) (pol int, exact bool) {
+	exact = true
+	for _, alt := range t.alts() {
+		q := versPredAlt(alt)
+		if q == 0 {
+			if alt.Kind == "zero" || alt.Kind == "const" {
+				exact = false
+				continue
+			}
+			return 0, false
+		}
+		if pol != 0 && q != pol {
+			return 0, false
+		}
+		pol = q
+	}
+	if pol == 0 {
+		return 0, false
+	}
+	// a constant alternative must be the one under which the value does NOT claim "new":
+	// false for pol=+1 (value ≡ new), true for pol=-1 (value ≡ existing)
+	for _, alt := range t.alts() {
+		if versPredAlt(alt) != 0 {
+			continue
+		}
+		isFalse := alt.Kind == "zero"
+		isTrue := alt.Kind == "const" && alt.Name == "true"
+		if pol == 1 && !isFalse || pol == -1 && !isTrue {
+			return 0, false
+		}
+	}
+	return pol, exact
 }
